@@ -26,7 +26,8 @@ RULE = ('cases (from_type, to_type, value): every integer of the short range and
         'non-trivial = value is not None and from_type != to_type; distinct by canonical JSON of the case')
 ASSUMPTIONS = [
     'str.lower() maps no non-ASCII character to a letter of "true"/"false" (model lowers ASCII only)',
-    'float -> string (repr) and casts to float/double are not modelled (generators do not produce them)',
+    'float -> string (repr) and string -> float/double are not modelled in Coq (float <-> string round trips are judged by the '
+    'oracle only, in extra_checks); int/bool/float/date -> float/double are modelled for |int| < 2^62',
     'Python int(str) is modelled for ASCII digits, sign, underscore and the whitespace set listed in Model/Cast.v',
 ]
 TRUSTED = ['translator/gen.py kernels cast_bounded, cast_widths', 'FloatOps.Prim2SF for int(float) truncation']
